@@ -44,8 +44,8 @@ def opSem (op : BinOp) (W : Nat) (a b : Int) : Nat :=
   | .and => pat W a &&& pat W b
   | .or => pat W a ||| pat W b
   | .xor => pat W a ^^^ pat W b
-  | .sll => (pat W a * 2 ^ pat W b) % 2 ^ W
-  | .srl => pat W a / 2 ^ pat W b
+  | .sll => if pat W b < W then (pat W a * 2 ^ pat W b) % 2 ^ W else 0
+  | .srl => if pat W b < W then pat W a / 2 ^ pat W b else 0
 
 /-- value (bit pattern at `cw e W`) of `e` in context width `W` -/
 def sval : Expr → Nat → Nat
